@@ -45,9 +45,9 @@ def partitions(kind, nproc):
         return m._Mesh_Get_Meshes(nproc)
     # public meshing path; only the final "build the Mesh object" step is redirected to the list-returning variant
     m._Mesh_Get_Mesh = lambda coef=1.0: m._Mesh_Get_Meshes(nproc, coef)
-    if kind in ("TRI3", "QUAD4", "TRI6"):
+    if kind in ("TRI3", "QUAD4", "TRI6", "TRI10", "QUAD8", "QUAD9"):
         return m.Mesh_2D(Domain(Point(), Point(2, 2), 1.0), [], ElemType[kind])
-    if kind in ("TETRA4", "PRISM6", "HEXA8"):
+    if kind in ("TETRA4", "PRISM6", "HEXA8", "TETRA10"):
         return m.Mesh_Extrude(Domain(Point(), Point(1, 1), 1.0), [], [0, 0, 1], [2], ElemType[kind])
     raise KeyError(kind)
 
@@ -381,9 +381,10 @@ def main():
     configs = []
     ne = {"TRI3": 14, "QUAD4": 4, "mixed": 38, "TRI6": 14, "TETRA4": 24, "PRISM6": 8}
     if tier == "quick":
-        plan = {"TRI3": [2, 3, 5, 14], "mixed": [2, 3, 5, 9, 12], "QUAD4": [2, 4], "TETRA4": [2, 3], "PRISM6": [3]}
+        plan = {"TRI3": [2, 3, 5, 14], "mixed": [2, 3, 5, 9, 12], "QUAD4": [2, 4], "TRI6": [3, 8, 14], "QUAD8": [2, 4], "TETRA4": [2, 3], "PRISM6": [3], "TETRA10": [5]}
     else:
-        plan = {"TRI3": list(range(1, 15)), "mixed": list(range(2, 13)) + [20, 38], "QUAD4": [1, 2, 3, 4], "TRI6": [2, 3, 5, 8], "TETRA4": [2, 3, 4, 6, 9], "PRISM6": [2, 3, 4, 8]}
+        plan = {"TRI3": list(range(1, 15)), "mixed": list(range(2, 13)) + [20, 38], "QUAD4": [1, 2, 3, 4], "TRI6": list(range(2, 15)), "TRI10": [3, 7, 14], "QUAD8": [2, 3, 4], "QUAD9": [3, 4],
+                "TETRA4": [2, 3, 4, 6, 9, 24], "PRISM6": [2, 3, 4, 8], "HEXA8": [2, 4], "TETRA10": [2, 5, 9, 16, 24]}
     for kind, ns in plan.items():
         for n in ns:
             configs.append({"mesh": kind, "nproc": n, "dof_n": 1})
